@@ -2,12 +2,21 @@ import Tbx.Drv.Common
 import Tbx.Model.Flow
 import Tbx.Model.FlowDinic
 import Tbx.Model.FlowLegacy
+import Tbx.Model.FlowGeneric
 import Tbx.Spec.Flow
 /-
 Shared driver code of C01 (max-flow value) and C02 (canonical minimum cut).
 
 ops:   st <s> <t>            header
+       gen <k>               optional header: the solvers are built with `from_generic_edge_list` and the
+                             capacity closure number k (`Tbx.Flow.genCap`); the e lines then carry raw payloads
        e <u> <v> <cap>       one input edge per line, in input order
+
+Domain (else `J skip`): non-empty list, capacities (after the closure) ≥ 0, s ≠ t both nodes, and the two
+conditions under which the solvers' i32 arithmetic cannot overflow: for every node pair the merged
+capacities of both directions together fit i32 (what `dedup +=` and `rev += flow` can reach), and the
+maximum flow value (taken from the model's Int result) fits i32 (what `max_flow += path_flow` reaches).
+The sum of all capacities may be arbitrarily large.
 
 obs, for each solver X in dinic, ek, ff (in this order):
   D X pre=<a>,<b>      C01   max_flow() / assignment(s) BEFORE run: ERR or the value     (determined: ERR,ERR)
@@ -28,16 +37,22 @@ abbrev E := FlowSpec.E
 structure Inp where
   s : Nat
   t : Nat
-  edges : List E
+  edges : List E            -- as written on the e lines (payloads when `gen` is present)
+  gen : Option Nat := none
 deriving Inhabited
 
 def parseInp (ops : Array String) : Option Inp := Id.run do
   let mut s := 0
   let mut t := 0
   let mut haveSt := false
+  let mut gen : Option Nat := none
   let mut es : Array E := #[]
   for l in ops do
     match words l with
+    | ["gen", k] =>
+      match k.toNat? with
+      | some k => gen := some k
+      | none => return none
     | ["st", a, b] =>
       match a.toNat?, b.toNat? with
       | some a, some b => s := a; t := b; haveSt := true
@@ -47,7 +62,7 @@ def parseInp (ops : Array String) : Option Inp := Id.run do
       | some u, some v, some c => es := es.push (u, v, c)
       | _, _, _ => return none
     | _ => return none
-  if haveSt then return some { s := s, t := t, edges := es.toList } else return none
+  if haveSt then return some { s := s, t := t, edges := es.toList, gen := gen } else return none
 
 def bit (b : Bool) : String := if b then "1" else "0"
 def bitsS (bs : List Bool) : String := String.join (bs.map bit)
@@ -98,8 +113,14 @@ structure RunObs where
   stuck  : Bool
 deriving Inhabited
 
+/-- the capacity closure of the case (identity for `from_edge_list` cases) -/
+def capFn (inp : Inp) : Int → Int :=
+  match inp.gen with
+  | some k => genCap k
+  | none => id
+
 def runDinic (inp : Inp) (fuel : Nat) : RunObs × Option Dinic :=
-  match Dinic.fromEdgeList (toEdges inp.edges) inp.s inp.t with
+  match Dinic.fromGenericEdgeList (capFn inp) (toEdges inp.edges) inp.s inp.t with
   | none => ({ pre := "STUCK", flow := "STUCK", assign := "STUCK", res := [], stuck := true }, none)
   | some d0 =>
     let pre := outIntS d0.maxFlow? ++ "," ++ outBitsS (d0.assignment? inp.s)
@@ -111,7 +132,7 @@ def runDinic (inp : Inp) (fuel : Nat) : RunObs × Option Dinic :=
          stuck := a matches .stuck }, some d)
 
 def runSolver (inp : Inp) (fuel : Nat) (ek : Bool) : RunObs × Option Solver :=
-  let d0 := Solver.fromEdgeList (toEdges inp.edges) inp.s inp.t
+  let d0 := Solver.fromGenericEdgeList (capFn inp) (toEdges inp.edges) inp.s inp.t
   let pre := outIntS d0.maxFlow? ++ "," ++ outBitsS (d0.assignment? inp.s)
   match (if ek then d0.runEK fuel else d0.runFF fuel) with
   | none => ({ pre := pre, flow := "STUCK", assign := "STUCK", res := [], stuck := true }, none)
@@ -145,15 +166,24 @@ def maxAugsInPhase (trace : List (Nat × List Nat × Int)) : Nat :=
 def handle (withPre withAssign : Bool) (c : Case) : CaseOut := Id.run do
   let some inp := parseInp c.ops
     | return { model := #[], verdict := .skip "unparsable case" }
-  let es := inp.edges
+  if (inp.gen.getD 0) > 3 then return { model := #[], verdict := .skip "unknown capacity closure" }
+  let f := capFn inp
+  -- the capacities the solvers are supposed to work with
+  let es : List E := inp.edges.map fun (u, v, p) => (u, v, f p)
   -- domain of the property's quantifier (and of the Rust constructors)
   if es.isEmpty then return { model := #[], verdict := .skip "empty edge list (from_edge_list debug_assert)" }
   if es.any (fun e => e.2.2 < 0) then return { model := #[], verdict := .skip "negative capacity" }
   let n := FlowSpec.nNodes es
   if inp.s == inp.t then return { model := #[], verdict := .skip "source = target" }
   if inp.s ≥ n || inp.t ≥ n then return { model := #[], verdict := .skip "source/target not a node of the graph" }
+  let i32max : Int := 2147483647
+  -- no i32 overflow, part 1: merged capacities of every node pair (both directions together) fit i32
+  let C := FlowSpec.matOf n es
+  let pairsFit := (List.range n).all fun u => (List.range n).all fun v =>
+    if u == v then decide (FlowSpec.look n C u u ≤ i32max)
+    else decide (FlowSpec.look n C u v + FlowSpec.look n C v u ≤ i32max)
+  if !pairsFit then return { model := #[], verdict := .skip "merged capacities of a node pair exceed i32 (capsFit)" }
   let total : Int := es.foldl (fun a e => a + e.2.2) 0
-  if total ≥ 2147483647 then return { model := #[], verdict := .skip "capacities do not fit i32 (capsFit)" }
   let fuel := total.toNat + 2
   -- model runs
   let (od, dd) := runDinic inp fuel
@@ -162,6 +192,10 @@ def handle (withPre withAssign : Bool) (c : Case) : CaseOut := Id.run do
   let model := renderObs withPre withAssign "dinic" od ++ renderObs withPre withAssign "ek" oe ++
                renderObs withPre withAssign "ff" off
   let modelStuck := od.stuck || oe.stuck || off.stuck
+  -- no i32 overflow, part 2: the maximum flow value (the model's exact Int result) fits i32
+  match parseInt? od.flow with
+  | some x => if x > i32max then return { model := #[], verdict := .skip "maximum flow value exceeds i32 (capsFit)" }
+  | none => pure ()
   -- the model's own final states through the same checker (a failure here is a model bug)
   let modelCert := [od, oe, off].all fun o =>
     match parseInt? o.flow, parseBits o.assign with
